@@ -104,7 +104,8 @@ def run_tlc(scratch, module, cfg_text, workers=1, timeout=600, env=None, simulat
         shutil.rmtree(d, ignore_errors=True)
         raise Infra("TLC timed out after %ds on %s" % (timeout, module))
     out = p.stdout
-    res.raw_tail = out[-3000:] + p.stderr[-2000:]
+    k = out.find("Error:")
+    res.raw_tail = (out[k:k + 2500] if k >= 0 else out[-3000:]) + p.stderr[-2000:]
     for line in out.splitlines():
         if line.startswith('<<') or line.startswith('"'):
             res.lines.append(line)
@@ -448,10 +449,9 @@ def finish(ctx, level="model_checking", rule="", assumptions=None, checker_cmd="
     with open(os.path.join(VERIF, "evidence", ctx.prop + ".json"), "w") as f:
         json.dump(ev, f, indent=1)
     if new_viol:
-        for (o, exp, note), path in zip(new_viol, replay_paths):
-            log("  " + summarize(o, exp, note))
-        if len(new_viol) > len(replay_paths):
-            log("  ... and %d more" % (len(new_viol) - len(replay_paths)))
+        for (o, exp, note), path in list(zip(new_viol, replay_paths))[:8]:
+            log("  " + summarize(o, exp, note)[:700])
+        log("  %d violating cases in total (first %d written under replays/%s/)" % (len(new_viol), len(replay_paths), ctx.prop))
         print("VIOLATION property=%s replay=%s" % (ctx.prop, replay_paths[0]))
         return 1
     log("%s %s: ok  (%d evaluations, %d validated, %d distinct non-trivial, %d states, %.1fs)"
@@ -460,13 +460,13 @@ def finish(ctx, level="model_checking", rule="", assumptions=None, checker_cmd="
 
 
 def summarize(o, exp, note):
-    parts = []
+    parts = ["[%s]" % o.get("id")]
     if note:
         parts.append(note)
-    if "text" in o:
-        parts.append("template=%r" % o["text"][:300])
     if o.get("env"):
         parts.append("bindings=%r" % short_env(o["env"]))
+    if "text" in o:
+        parts.append("template=%r" % o["text"][:240])
     parts.append("observed=%s" % o.get("outcome"))
     if o.get("outcome") == "ok" and "out" in o:
         parts.append("out=%r" % bytes(o["out"]).decode("utf-8", "replace")[:200])
